@@ -23,6 +23,7 @@ import (
 	"encoding/json"
 	"errors"
 	"fmt"
+	"hash/fnv"
 	"strings"
 
 	"github.com/lestrrat-go/jwx/v2/jwk"
@@ -57,6 +58,12 @@ type c03Input struct {
 	Mode string `json:"mode,omitempty"`
 	Idx  int    `json:"idx,omitempty"`
 	Mask byte   `json:"mask,omitempty"`
+	// key metadata (kid / alg / use / key_ops, as real JWKs carry): "kid=..;alg=..;use=..;ops=sign,verify";
+	// "" = derived from the input itself (autoMeta), "-" = none.  The property does not let the
+	// outcome depend on any of it, so the model ignores it.
+	Meta string `json:"meta,omitempty"`
+	// op "seq": the steps run in order in one process, each judged like a stand-alone case
+	Steps []c03Input `json:"steps,omitempty"`
 	// shared-instance scenarios (op "shared", see shared.go)
 	What  string `json:"what,omitempty"` // aead | symkey | block | asymkey
 	G     int    `json:"g,omitempty"`    // goroutines (1 = one instance used sequentially)
@@ -139,6 +146,78 @@ func c03GetKey(s string) (*c03Key, error) {
 	return &c03Key{jwk: k, coq: "(" + c03KeyCoq[name][idx] + ")", kind: kind, name: name, pub: pub}, nil
 }
 
+// c03GetKeyMeta: the key object with metadata set on a private copy of it.
+func c03GetKeyMeta(s, meta string) (*c03Key, error) {
+	k, err := c03GetKey(s)
+	if err != nil || meta == "" || meta == "-" {
+		return k, err
+	}
+	cl, err := k.jwk.Clone()
+	if err != nil {
+		return nil, err
+	}
+	k2 := *k
+	k2.jwk = cl
+	for _, kv := range strings.Split(meta, ";") {
+		name, val, _ := strings.Cut(kv, "=")
+		switch name {
+		case "kid":
+			err = cl.Set(jwk.KeyIDKey, val)
+		case "alg":
+			err = cl.Set(jwk.AlgorithmKey, val)
+		case "use":
+			err = cl.Set(jwk.KeyUsageKey, val)
+		case "ops":
+			var ops jwk.KeyOperationList
+			for _, o := range strings.Split(val, ",") {
+				ops = append(ops, jwk.KeyOperation(o))
+			}
+			err = cl.Set(jwk.KeyOpsKey, ops)
+		default:
+			err = fmt.Errorf("bad key metadata %q", kv)
+		}
+		if err != nil {
+			return nil, err
+		}
+	}
+	return &k2, nil
+}
+
+// autoMeta: metadata for a case that does not say any, fixed by the input itself (a replay gets
+// the same).  The kid names the key MATERIAL (named key / hash of the octets), so distinct keys
+// never share one here; colliding kids are the business of the "seq" and "shared" scenarios.
+func autoMeta(in c03Input) string {
+	h := fnv.New64a()
+	fmt.Fprintf(h, "%s|%s|%s|%d", in.Op, in.Alg, in.Key, len(in.Data))
+	x := h.Sum64()
+	kid := ""
+	if strings.HasPrefix(in.Key, "oct:") {
+		kh := fnv.New64a()
+		kh.Write([]byte(in.Key))
+		kid = fmt.Sprintf("kid-%x", kh.Sum64())
+	} else {
+		kid = "kid-" + in.Key // the public half has its own: collisions of any sort only in scenarios
+	}
+	algs := []string{"RS256", "A128GCM", "ES256", "EdDSA", "RSA-OAEP", "A256KW", "dir", "PS512"}
+	switch x % 4 {
+	case 0:
+		return "-"
+	case 1:
+		return "kid=" + kid
+	case 2: // plausible: the requested algorithm when jwx knows the name
+		alg := algs[(x>>8)%uint64(len(algs))]
+		for _, a := range c03AllNames {
+			if a == in.Alg {
+				alg = a
+			}
+		}
+		return "kid=" + kid + ";alg=" + alg + ";use=" + []string{"sig", "enc"}[(x>>16)%2]
+	}
+	// contradictory: another algorithm, the other use, operations that do not include this one
+	return "kid=" + kid + ";alg=" + algs[(x>>8)%uint64(len(algs))] + ";use=" + []string{"sig", "enc"}[(x>>16)%2] +
+		";ops=" + []string{"sign,verify", "encrypt,decrypt", "wrapKey,unwrapKey", "deriveBits"}[(x>>24)%4]
+}
+
 func octKey(b []byte) string { return "oct:" + base64.StdEncoding.EncodeToString(b) }
 
 func rawRSA(name string) *rsa.PrivateKey {
@@ -215,7 +294,7 @@ func (o c03Obs) coq(okTerm string) string {
 // of a shared-instance scenario): the kit call is not repeated, the input of the case is the
 // scenario (so that a replay re-runs the scenario, not the single operation).
 type c03Override struct {
-	obs    c03Obs
+	obs    *c03Obs // nil: the operation runs normally, only the recorded input is the scenario
 	input  json.RawMessage
 	direct int
 	note   string
@@ -226,8 +305,8 @@ var c03Ovr *c03Override
 
 // guard runs f and turns a panic into the panic observation.
 func guard(f func() c03Obs) (o c03Obs) {
-	if c03Ovr != nil {
-		return c03Ovr.obs
+	if c03Ovr != nil && c03Ovr.obs != nil {
+		return *c03Ovr.obs
 	}
 	return guardRun(f)
 }
@@ -413,11 +492,16 @@ func c03Run(ctx *core.Ctx, in c03Input) (c03Obs, error) {
 	var o c03Obs
 	var key *c03Key
 	if in.Key != "" {
-		k, err := c03GetKey(in.Key)
+		meta := in.Meta
+		if meta == "" {
+			meta = autoMeta(in)
+		}
+		k, err := c03GetKeyMeta(in.Key, meta)
 		if err != nil {
 			return o, err
 		}
 		key = k
+		ctx.Sink.Count("keymeta=" + map[bool]string{true: "none", false: fmt.Sprint(strings.Count(meta, ";")+1, " fields")}[meta == "-"])
 		c.Facts["key_kind"] = key.kind
 		if key.name != "" {
 			c.Facts["key"] = key.name
@@ -857,6 +941,9 @@ func c03Gen(ctx *core.Ctx) {
 	// --- (K) one instance shared: sequences on, and goroutines around, every reusable object
 	c03GenShared(ctx)
 
+	// --- (L) distinct keys carrying the same kid, one after the other in one process
+	c03GenKidSeq(ctx)
+
 	// --- (A) the sentinel grid: key sizes x nonce lengths 0..32 x tag lengths 0..32
 	for _, alg := range algs {
 		si := c03Sym[alg]
@@ -1261,6 +1348,9 @@ func main() {
 			var in c03Input
 			if err := json.Unmarshal(raw, &in); err != nil {
 				return err
+			}
+			if in.Op == "seq" {
+				return c03RunSeq(ctx, in)
 			}
 			if in.Op == "shared" {
 				// a recorded scenario (replay, corpus): an interleaving-dependent failure may need
